@@ -513,7 +513,15 @@ class HTTPConnection(_HTTPConnection):
         _shutdown = getattr(self.sock, "shutdown", None)
 
         # Get the response from http.client.HTTPConnection
-        httplib_response = super().getresponse()
+        has_connected_to_proxy = self._has_connected_to_proxy
+        try:
+            httplib_response = super().getresponse()
+        except BaseException:
+            # http.client closes the connection when reading the response fails,
+            # and close() forgets that the proxy had been reached. Keep that fact
+            # so the failure is not mistaken for a failure to connect to the proxy.
+            self._has_connected_to_proxy = has_connected_to_proxy
+            raise
 
         try:
             assert_header_parsing(httplib_response.msg)
